@@ -539,7 +539,16 @@ var c16NonWord = regexp.MustCompile(`[^a-z]+`)
 
 // c16ErrTail: the innermost reason of a compiler error, without values.
 func c16ErrTail(err error) string {
-	line := strings.Split(err.Error(), "\n")[0]
+	// the innermost cause is on the last line that is not a position
+	lines := strings.Split(err.Error(), "\n")
+	line := lines[0]
+	for i := len(lines) - 1; i > 0; i-- {
+		l := strings.TrimSpace(lines[i])
+		if l != "" && !strings.HasPrefix(l, "at ") && !strings.HasPrefix(l, "included from") {
+			line = l
+			break
+		}
+	}
 	segs := strings.Split(line, ": ")
 	t := strings.ToLower(segs[len(segs)-1])
 	if i := strings.IndexAny(t, "'\"{["); i >= 0 {
@@ -1313,8 +1322,11 @@ func c16CheckPipestance(cp *c16Campaign, vc *vrun.Case, p *pgen.Program, seed in
 			}
 			sigBase := "C16:invocation-not-compiling:"
 			if !isStage {
-				// the fork of a (mapped) pipeline call, not of a stage: kept apart
-				sigBase = "C16:pipeline-invocation-not-compiling:"
+				// the fork of a (mapped) pipeline call, not of a stage: the
+				// property speaks of the invocation recorded for a stage, so
+				// this is an observation only
+				cp.count("pipeline_fork_invocations_not_compiling", 1)
+				continue
 			}
 			c.Violate(sigBase+cls, fmt.Sprintf("%s does not compile against the MROPATH: %s", rel, truncate(msg, 300)),
 				replay(path, text, nil))
